@@ -89,7 +89,15 @@ def _run_shard(jobdir, idx, lines, exe, fmode, cfgname, san, keep, l2=False):
     sigs, nlines, violations, ops = P.analyse(tracef, viol, hits, cfgname)
     l2_calls, l2_drift = 0, []
     if l2:
-        l2_calls, l2_drift = P.validate_impl(tracef, sdir, 'l2')
+        try:
+            l2_calls, l2_drift = P.validate_impl(tracef, sdir, 'l2')
+        except RuntimeError:
+            # L2 starts every call from the RECORDED pre-state.  Where L1 / L0 already rejected a line of this trace, a
+            # later pre-state can lie outside what the implementation-shaped model can represent (a container pointing at
+            # a block the ledger no longer holds, ...): that is the violation already reported, not a fault of the machinery.
+            if not violations:
+                raise
+            l2_drift = [dict(line=0, op='-', what=['L2 could not be evaluated: the trace contains states that L1 rejects'], recorded='')]
     skipped = 0
     sample = []
     with open(tracef) as f:
